@@ -193,7 +193,13 @@ def rule_c(ctx):
                    "(less_than = a < b and not fuzzy_equals; less_than_or_equals = a < b or fuzzy_equals; as_int = fuzzy_equals(x, round(x)))")
     prog = ctx.prog()
     for fn, sign in (("epsilon", -1), ("inverse_epsilon", 1)):
-        b = prog.one("value::number::" + fn)
+        try:
+            b = prog.one("value::number::" + fn)
+        except AnchorMissing:
+            if fn == "inverse_epsilon":
+                r.note("inverse_epsilon() no longer exists (nothing to check; the bucket key of fuzzy_equals is checked by C09-f)")
+                continue
+            raise
         pw = [c for c in b.calls() if (c.callee or "").endswith("powi")]
         ok = False
         if len(pw) == 1:
